@@ -41,8 +41,15 @@ def castOK (t : TT) (c : Cast) : Bool :=
    | .string => c == .str      -- only for Go `string`; []byte values are excluded by the guard
    | _ => false)
 
+/-- … and for the *key* of a typed `range` also the same hash function: while it iterates a map that
+    is growing the runtime rehashes keys with the hasher of the map type it was given.  `float64` keys
+    hash by value (`f64hash`), integers by their bytes, so a `map[float64]V` ranged as `map[uint64]V`
+    loses and repeats entries mid-growth (D13: "map size changed during encoding" on a valid value) -/
+def keyCastOK (t : TT) (c : Cast) : Bool :=
+  castOK t c && (t != .double || c == .iter)
+
 def routineOK (k v : TT) (r : MapRoutine) : Bool :=
-  opOK k r.kw && opOK v r.vw && castOK k r.castK && castOK v r.castV &&
+  opOK k r.kw && opOK v r.vw && keyCastOK k r.castK && castOK v r.castV &&
   ((r.castK == .iter) == (r.castV == .iter))
 
 namespace Params
